@@ -2,7 +2,7 @@
  * C15 O-3: the stream codec wrappers (process_data) against contract stubs of
  * the codec libraries.
  * real code: lib/xfrm/src/gzip.c (KIND 1), xz.c (KIND 2), bzip2.c (KIND 3),
- *            #included; compressing direction.
+ *            zstd.c (KIND 4), #included; compressing direction.
  * Library model (deflate / lzma_code / BZ2_bzCompress): one call consumes
  * c <= avail_in bytes, emits p <= avail_out bytes out of an internal backlog
  * (symbolic initial size = data the library still buffers from earlier
@@ -90,6 +90,31 @@ lzma_bool lzma_lzma_preset(lzma_options_lzma *o, uint32_t p) { (void)o; (void)p;
 #include "lib/xfrm/src/xz.c"
 static xfrm_xz_t OBJ;
 #define SETUP() do { OBJ.compress = true; OBJ.initialized = ND_BOOL(); } while (0)
+#elif KIND == 4
+#include <zstd.h>
+/* ZSTD_compressStream2: consumes input->pos.., produces output->pos..; returns
+   the number of bytes still to flush (0 = everything flushed / frame complete
+   for ZSTD_e_flush / ZSTD_e_end) or an error code */
+size_t ZSTD_compressStream2(ZSTD_CCtx *c, ZSTD_outBuffer *o, ZSTD_inBuffer *i, ZSTD_EndDirective e)
+{
+	unsigned ai = (unsigned)(i->size - i->pos), ao = (unsigned)(o->size - o->pos), ai0 = ai, ao0 = ao;
+	int np, end;
+	(void)c;
+	end = lib_step(&ai, &ao, (unsigned char *)o->dst + o->pos, e == ZSTD_e_end, &np);
+	i->pos += ai0 - ai; o->pos += ao0 - ao;
+	(void)np;
+	/* end of frame: 0; otherwise a hint > 0 (bytes still buffered, at least 1) */
+	return end ? 0 : (size_t)backlog + 1;
+}
+size_t ZSTD_decompressStream(ZSTD_DStream *d, ZSTD_outBuffer *o, ZSTD_inBuffer *i) { (void)d; (void)o; (void)i; return 0; }
+unsigned ZSTD_isError(size_t code) { return code > (size_t)-100; }
+ZSTD_CStream *ZSTD_createCStream(void) { return NULL; }
+ZSTD_DStream *ZSTD_createDStream(void) { return NULL; }
+size_t ZSTD_freeCStream(ZSTD_CStream *z) { (void)z; return 0; }
+size_t ZSTD_freeDStream(ZSTD_DStream *z) { (void)z; return 0; }
+#include "lib/xfrm/src/zstd.c"
+static xfrm_zstd_t OBJ;
+#define SETUP() do { OBJ.compress = true; } while (0)
 #else
 #include <bzlib.h>
 int BZ2_bzCompress(bz_stream *s, int action)
